@@ -254,7 +254,7 @@ def h_orig_bam(ex, prop, L, interval=None, pdu2=True, eps_sym=True):
         ps = 255
     payload = sym_payload(ex, 'b', L)
     npk = tp21.npackets(L)
-    pgn = dp * 65536 + pf * 256 + ps
+    pgn = dp * 65536 + pf * 256 + (ps if pdu2 else 0)        # the PGN of a PDU1 message has PS = 0
     ivl = Fraction(interval) if interval is not None else Fraction(0.05)
     w.run(until=T('1/100'))
     r = ca.send_pgn(dp, pf, ps, prio, list(payload))
